@@ -15,6 +15,7 @@ import (
 	"time"
 
 	"github.com/AsaiYusuke/jsonpath"
+	"verif/internal/harness"
 	"verif/internal/hooks"
 	"verif/internal/spec"
 )
@@ -37,6 +38,12 @@ var slots [256]int64
 var slotHint uint32
 
 func libEnter() int {
+	if harness.RaceEnabled {
+		// under the race detector the harness must not add synchronisation between goroutines
+		// (an atomic on a shared word orders their library calls and hides races from the detector);
+		// hang verdicts come from the plain build
+		return -1
+	}
 	now := time.Now().UnixNano()
 	i := int(atomic.AddUint32(&slotHint, 1)) % len(slots)
 	for n := 0; n < len(slots); n++ {
